@@ -24,6 +24,8 @@ type Exec struct {
 	Check func(v vrt.Verdict) (outcome, key, what string, handled bool)
 	// State, when set, returns the fingerprint of the final state (distinct-state count).
 	State func() string
+	// Races are the data races the detector reported during this execution (race builds).
+	Races []RaceReport
 }
 
 type SScenario struct {
@@ -55,9 +57,15 @@ func ToolError(format string, a ...interface{}) {
 	os.Exit(3)
 }
 
+var races = newRaceWatcher()
+
 func runOnce(sc *SScenario, prefix []int, tracing bool) (*vrt.Sched, *Exec) {
 	x := &Exec{}
-	s := vrt.Run(vrt.Options{Prefix: prefix, Horizon: sc.Horizon, Tracing: tracing}, func(s *vrt.Sched) {
+	s := vrt.Run(vrt.Options{Prefix: prefix, Horizon: sc.Horizon, Tracing: tracing, OnEnd: func(*vrt.Sched) {
+		// reports written so far belong to this execution proper; whatever teardown
+		// (sequential kill of parked threads) provokes afterwards is discarded
+		x.Races = races.take()
+	}}, func(s *vrt.Sched) {
 		x.S = s
 		sc.Body(x)
 	})
@@ -85,6 +93,12 @@ func RunS(r *vres.Report, test string, sc SScenario) {
 	}
 	ex.Exec = func(prefix []int) []vrt.Choice {
 		s, x := runOnce(&sc, prefix, false)
+		races.take() // drop anything reported during teardown
+		for _, rr := range x.Races {
+			cs := vrt.FormatChoices(s.Choices)
+			r.Violate(kp+"/data-race/"+rr.Key, fmt.Sprintf("data race between %s and %s (scenario %s, schedule %v)\n%s", rr.Frames[0], rr.Frames[1], sc.Name, cs, rr.Text),
+				vrt.Preemptions(s.Choices)*1000+len(cs), SReplay{Engine: "S-race", Test: test, Scenario: sc.Name, Params: sc.Params, Choices: cs, Verdict: "data race"})
+		}
 		transitions += int64(s.Steps)
 		if s.Steps > maxPoints {
 			maxPoints = s.Steps
